@@ -55,7 +55,8 @@ fn rnd(seed: u64, len: usize) -> Vec<u8> {
     Content::Random { seed, len }.bytes()
 }
 
-fn gen_content(r: &mut SplitMix, maxfile: usize) -> Vec<u8> {
+/// first letter of a file name = kind of its content: r random, z zeros, p periodic, x other
+fn gen_content(r: &mut SplitMix, maxfile: usize) -> (char, Vec<u8>) {
     let len = match r.below(10) {
         0 => 0,
         1 => r.below(100) as usize,
@@ -63,9 +64,9 @@ fn gen_content(r: &mut SplitMix, maxfile: usize) -> Vec<u8> {
         _ => maxfile / 4 + r.below((maxfile - maxfile / 4).max(1) as u64) as usize,
     };
     match r.below(10) {
-        0 => Content::Zero { len }.bytes(),
-        1 => Content::Periodic { seed: r.next(), period: 1 + r.below(5000) as usize, len }.bytes(),
-        _ => Content::Random { seed: r.next(), len }.bytes(),
+        0 => ('z', Content::Zero { len }.bytes()),
+        1 => ('p', Content::Periodic { seed: r.next(), period: 1 + r.below(5000) as usize, len }.bytes()),
+        _ => ('r', Content::Random { seed: r.next(), len }.bytes()),
     }
 }
 
@@ -108,7 +109,8 @@ fn apply_op(w: &mut World, op: u64, a: u64, b: u64, c: u64, d: u64, repo_blob: &
         }
         6 if nf > 0 => {
             let i = pick(a);
-            let name = w.fresh("dup");
+            let kind = w.files[i].0.chars().next().unwrap_or('x');
+            let name = w.fresh(&format!("{kind}dup"));
             let dir = (b as usize) % DIRS.len();
             let bytes = fs::read(w.path(i)).unwrap();
             w.files.push((name.clone(), dir));
@@ -118,8 +120,8 @@ fn apply_op(w: &mut World, op: u64, a: u64, b: u64, c: u64, d: u64, repo_blob: &
         7 if nf > 0 => {
             let i = pick(a);
             let from = w.path(i);
-            let name = w.fresh("mv");
             let old = w.files[i].0.clone();
+            let name = w.fresh(&format!("{}mv", old.chars().next().unwrap_or('x')));
             w.files[i] = (name.clone(), (b as usize) % DIRS.len());
             let to = w.path(i);
             fs::create_dir_all(to.parent().unwrap()).unwrap();
@@ -133,7 +135,7 @@ fn apply_op(w: &mut World, op: u64, a: u64, b: u64, c: u64, d: u64, repo_blob: &
             Some(format!("X 8 {n} 0 0 0 0"))
         }
         9 => {
-            let name = w.fresh("new");
+            let name = w.fresh(["rnew", "znew", "pnew"][(b % 3) as usize]);
             let bytes = match b % 3 {
                 0 => rnd(d, c as usize),
                 1 => vec![0u8; c as usize],
@@ -144,13 +146,13 @@ fn apply_op(w: &mut World, op: u64, a: u64, b: u64, c: u64, d: u64, repo_blob: &
             Some(format!("X 9 {name} 0 0 {} 0", bytes.len()))
         }
         10 => {
-            let name = w.fresh("col");
+            let name = w.fresh("xcol");
             w.files.push((name.clone(), (a as usize) % DIRS.len()));
             write_file(&w.path(nf), b"{\"nodes\":[]}\n");
             Some(format!("X 10 {name} 0 0 13 0"))
         }
         11 => {
-            let name = w.fresh("emptydir");
+            let name = w.fresh("xemptydir");
             fs::create_dir_all(w.root.join(DIRS[(a as usize) % DIRS.len()]).join(&name)).unwrap();
             Some(format!("X 11 {name} 0 0 0 0"))
         }
@@ -161,7 +163,7 @@ fn apply_op(w: &mut World, op: u64, a: u64, b: u64, c: u64, d: u64, repo_blob: &
             if bytes.len() >= 4096 {
                 return None;
             }
-            let name = w.fresh("astree");
+            let name = w.fresh("xastree");
             w.files.push((name.clone(), (a as usize) % DIRS.len()));
             write_file(&w.path(nf), &bytes);
             Some(format!("X 12 {name} 0 0 {} 0", bytes.len()))
@@ -170,7 +172,7 @@ fn apply_op(w: &mut World, op: u64, a: u64, b: u64, c: u64, d: u64, repo_blob: &
             let mut r = SplitMix(d);
             let n = c.min(200);
             for _ in 0..n {
-                let name = w.fresh("fill");
+                let name = w.fresh("xfill");
                 w.files.push((name, (r.below(DIRS.len() as u64)) as usize));
                 let l = 1 + r.below(40) as usize;
                 let bytes = rnd(r.next(), l);
@@ -320,7 +322,19 @@ fn backup_and_report(
     Ok(s)
 }
 
+/// irreducible polynomials of degree 53 (restic's documented example + polynomials drawn by `init`)
+const POLYS: [u64; 6] = [
+    0x3DA3358B4DC173, 0x2e275b928699d1, 0x34110dbce30fa7, 0x252ad901f21e1b, 0x2b6a4ad79585f7, 0x33fd4c16e1a84f,
+];
+
 fn case(line: &str) -> String {
+    if line.trim() == "poly" {
+        // a polynomial as `init` draws it (used once to collect POLYS)
+        return match init_repo(mem(), None, &ConfigOptions::default(), &repo_opts()) {
+            Ok((repo, _)) => repo.config().chunker_polynomial.clone(),
+            Err(e) => format!("err {e}"),
+        };
+    }
     let mut t = Toks::new(line);
     let (seed, nfiles, maxfile, dp, tp, nsteps) = (t.u(), t.u() as usize, t.u() as usize, t.u() as u32, t.u() as u32, t.u() as usize);
     let mut r = SplitMix(seed);
@@ -328,8 +342,9 @@ fn case(line: &str) -> String {
     let mut w = World { root: src.path().to_path_buf(), files: Vec::new(), next: 0, dense: BTreeMap::new(), last_trees: Vec::new() };
     fs::create_dir_all(&w.root).unwrap();
     for i in 0..nfiles {
-        w.files.push((format!("f{i}"), r.below(DIRS.len() as u64) as usize));
-        let b = gen_content(&mut r, maxfile.max(4));
+        let dir = r.below(DIRS.len() as u64) as usize;
+        let (kind, b) = gen_content(&mut r, maxfile.max(4));
+        w.files.push((format!("{kind}f{i}"), dir));
         write_file(&w.path(i), &b);
     }
     let store = mem();
@@ -337,13 +352,22 @@ fn case(line: &str) -> String {
         .set_chunk_size(bytesize::ByteSize(8192))
         .set_chunk_min_size(bytesize::ByteSize(4096))
         .set_chunk_max_size(bytesize::ByteSize(65536));
-    let key = match init_repo(store.clone(), None, &cfg, &repo_opts()) {
-        Ok((repo, key)) => {
-            drop(repo);
-            key
-        }
-        Err(e) => return format!("err init {}", e.to_string().replace('\n', " ")),
+    // the chunker polynomial is normally drawn at random by `init`; it is fixed per case here so
+    // that a case line replays with the same chunk boundaries
+    let key = MasterKey::new();
+    let init = || -> anyhow::Result<()> {
+        let mut config = rustic_core::repofile::ConfigFile::default();
+        config.version = 2;
+        config.chunker_polynomial = format!("{:x}", POLYS[(seed % POLYS.len() as u64) as usize]);
+        cfg.apply(&mut config)?;
+        let bes = rustic_core::RepositoryBackends::new(store.clone(), None);
+        let repo = rustic_core::Repository::new(&repo_opts(), &bes)?;
+        let _ = repo.init_with_config(&rustic_core::Credentials::Masterkey(key.clone()), &rustic_core::KeyOptions::default(), config)?;
+        Ok(())
     };
+    if let Err(e) = init() {
+        return format!("err init {}", e.to_string().replace('\n', " "));
+    }
     let mut out = String::from("ok");
     // step 0: the initial backup; then the script
     for k in 0..=nsteps {
